@@ -43,6 +43,7 @@ async function main () {
     const leaf = leaves[i]
     const reqs = driver.requests ? driver.requests(leaf, ctx) : []
     const resps = await Promise.all(reqs.map((r) => service.send(r)))
+    if (service.tripped && resps.some((r) => r.status === 'skipped')) { out.outcomes.skipped_after_hangs = (out.outcomes.skipped_after_hangs || 0) + 1; return }
     const res = await driver.check(leaf, resps, ctx)
     out.evaluations += res.evaluations || 1
     if (res.nontrivial) out.nontrivialHashes.push(h(res.distinctKey || JSON.stringify(reqs.length ? reqs : leaf)))
@@ -60,12 +61,13 @@ async function main () {
   }
   const running = new Set()
   while (next < mine.length || running.size) {
+    if (service.tripped && next < mine.length) { out.outcomes.skipped_after_hangs = (out.outcomes.skipped_after_hangs || 0) + (mine.length - next); next = mine.length }
     while (next < mine.length && running.size < maxInflight) {
       const p = one(mine[next++]).catch((e) => { throw e })
       running.add(p)
       p.then(() => running.delete(p), () => running.delete(p))
     }
-    await Promise.race(running)
+    if (running.size) await Promise.race(running)
   }
   out.restarts = service.restarts
   if (driver.finish) out.finish = await driver.finish(ctx)
